@@ -36,7 +36,8 @@ META = {
         ' Round 8: the colon-required fallback stages a single section (shared with C11).'
         " Round 9: segment cuts at TwpRgeFinder's matches, not at every raw pattern match; the sec_within length gate is >=."
         ' Round 12: field-role names are judged only when they speak about the match, not about the block.'
-        ' Also (round 12): with sec_within, left-over text below the minimum length is dropped without a flag - recorded as a known finding whose key carries the folded threshold (a larger threshold is a new violation).'),
+        ' Also (round 12): with sec_within, left-over text below the minimum length is dropped without a flag - recorded as a known finding whose key carries the folded threshold (a larger threshold is a new violation).'
+        " deduce_layout's description-length threshold measures the text as written, not the cleaned-up text (C20-r8m1)."),
     'families': ['TBL', 'LOCK', 'ORDER', 'PAIR', 'FORWARD', 'DEADPARAM', 'SIB-DEFAULTS'],
 }
 
@@ -61,6 +62,7 @@ def check(ctx):
     from .c04 import _thresholds_and_tests   # sec_within re-attaches a block of exactly the minimum length (>=, as the flagging side)
     ctx.attempt(_thresholds_and_tests)
     ctx.attempt(_sec_within_length_gate)
+    ctx.attempt(_layout_threshold_measures_the_written_text)
     from .c11 import _copyall                 # the colon-required fallback keeps the text in ONE tract
     ctx.attempt(_copyall)
     ctx.attempt(word_tables)
@@ -423,3 +425,30 @@ def _sec_within_length_gate(ctx):
                   f"with sec_within, left-over text shorter than {val} characters is dropped from the rebuilt description without a flag "
                   f"(the property asks for the leading and trailing text joined in order)",
                   key=f"SINK|rebuild_sec_within|min-length|{val}", where=common.loc(fi, gates[0]))
+
+
+def _layout_threshold_measures_the_written_text(ctx):
+    """deduce_layout tells TR_desc_S from TRS_desc by how much text stands
+    between the first Twp/Rge and the first section (>= a few characters: a
+    description).  The measure is the text as written (stripped): running it
+    through the clean-up function first culls connector words ('W/2 of' ->
+    'W/2', below the threshold), and because `segment` re-deduces the layout
+    per chunk, a chunk whose leading description is a half then parses under
+    another layout than the description as a whole: segment on != segment off."""
+    fi = ctx.repo.func('plss_parse:deduce_layout')
+    cname = common.cleanup_name(ctx)
+    n = 0
+    for c in walk_local(fi.node):
+        if isinstance(c, ast.Compare) and len(c.ops) == 1 and isinstance(c.left, ast.Call) and dotted(c.left.func) == 'len' and c.left.args \
+                and isinstance(c.comparators[0], ast.Constant) and isinstance(c.comparators[0].value, int):
+            pv = flow.provenance(fi.node, c.left.args[0])
+            calls = {x.split('.')[-1] for x in flow.prov_calls(pv)}
+            n += 1
+            ctx.check(cname not in calls, 'SIB', f"deduce_layout: `{norm(c)}` measures the text as written",
+                      detail_bad=f"the text measured by `{norm(c)}` went through {cname}(): connector words are culled before the "
+                                 f"threshold ('W/2 of' counts 3 characters, 'SW/4 of' 4), so with `segment` a later chunk that starts with a "
+                                 f"half is deduced as TRS_desc while the whole description is TR_desc_S - its sections are rejected and "
+                                 f"the chunk collapses into one copy_all tract", key="SIB|deduce_layout|threshold-after-cleanup",
+                      where=common.loc(fi, c))
+    if n == 0:
+        ctx.undecided('SIB', 'deduce_layout: the description-length threshold', 'no length comparison found')
